@@ -38,8 +38,13 @@ class StopWatcher(BaseException):
 
 class StepSched:
 
-    def __init__(self, payload, timed):
-        self.payload, self.timed = payload, timed
+    def __init__(self, payload, timed, sig='now'):
+        self.payload, self.timed, self.sig = payload, timed, sig
+        self.t_sigterm = False     # SIGTERM delivered, process not (yet) dead
+        self.exp2 = False          # a later join(timeout=...) of the dispatcher expired
+        self.join_no = 0
+        self.abort = False
+        self.reported_while_alive = False
         self.cv = threading.Condition()
         self.pending = {}          # party -> (op, info) while parked
         self.turn = None
@@ -65,14 +70,14 @@ class StepSched:
         if p is None:
             raise HarnessError('synchronisation op %s from an unknown thread' % op)
         with self.cv:
-            if p == 'T' and self.t_killed:
+            if self.abort or (p == 'T' and self.t_killed):
                 raise Killed()
             self.pending[p] = (op, info)
             if self.busy == p:
                 self.busy = None
             self.cv.notify_all()
             while self.turn != p:
-                if p == 'T' and self.t_killed:
+                if self.abort or (p == 'T' and self.t_killed):
                     raise Killed()
                 if not self.cv.wait(20):
                     raise HarnessError('party %s starved at %s' % (p, op))
@@ -98,7 +103,9 @@ class StepSched:
         if op == 'acquire':
             return self.lock_owner is None
         if op == 'join':
-            return self.t_dead or (info.get('timeout') is not None and self.expired)
+            if info.get('timeout') is None:
+                return self.t_dead
+            return self.t_dead or (self.expired if info.get('n') == 1 else self.exp2)
         if op == 'fn':
             return self.payload != 'hang'
         return True
@@ -112,13 +119,41 @@ class StepSched:
                 if not self.cv.wait(20):
                     raise HarnessError('party %s does not come back' % p)
 
+    def kill_t(self):
+        with self.cv:
+            if not self.t_dead:
+                self.t_killed = True
+                self.t_dead = True
+                self.pending.pop('T', None)
+                self.cv.notify_all()
+
+    def expire(self):
+        """the timeout of a join(timeout=...) expires: the request's own timeout first (may fire at any
+        time), then that of a later timed join the dispatcher is waiting in"""
+        if self.timed and not self.expired:
+            self.expired = True
+            self.record('X', 'expire')
+            return True
+        op, info = self.pending.get('D', (None, {}))
+        if op == 'join' and info.get('timeout') is not None and info.get('n', 1) >= 2 and not self.exp2:
+            self.exp2 = True
+            self.record('X', 'expire2')
+            return True
+        return False
+
+    def die(self):
+        """a process that reacts to SIGTERM with a delay finally dies"""
+        if self.t_sigterm and self.sig == 'delay' and not self.t_dead:
+            self.kill_t()
+            self.record('K', 'die')
+            return True
+        return False
+
     def choose(self, c):
         if c == 'X':
-            if self.timed and not self.expired:
-                self.expired = True
-                self.record('X', 'expire')
-                return True
-            return False
+            return self.expire()
+        if c == 'K':
+            return self.die()
         if self.enabled(c):
             self.grant(c)
             return True
@@ -132,9 +167,10 @@ class StepSched:
                 self.grant('D')
             elif self.enabled('T'):
                 self.grant('T')
-            elif self.timed and not self.expired:
-                self.expired = True
-                self.record('X', 'expire')
+            elif self.expire():
+                pass
+            elif self.die():
+                pass
             else:
                 break
 
@@ -231,7 +267,8 @@ class SProcess:
                     raise HarnessError('task process never reached a synchronisation point')
 
     def join(self, timeout=None):
-        self.s.sync('join', timeout=timeout)
+        self.s.join_no += 1
+        self.s.sync('join', timeout=timeout, n=self.s.join_no)
         self.s.record('D', 'join')
 
     def is_alive(self):
@@ -242,15 +279,18 @@ class SProcess:
     def terminate(self):
         s = self.s
         s.sync('terminate')
-        with s.cv:
-            if not s.t_dead:
-                s.t_killed = True
-                s.t_dead = True
-                s.pending.pop('T', None)
-                s.cv.notify_all()
+        if not s.t_dead:
+            if s.sig == 'now':
+                s.kill_t()
+            elif s.sig == 'delay':
+                s.t_sigterm = True
         s.record('D', 'terminate')
 
-    kill = terminate
+    def kill(self):
+        s = self.s
+        s.sync('kill')
+        s.kill_t()
+        s.record('D', 'kill')
 
 
 class SQueue:
@@ -261,6 +301,8 @@ class SQueue:
         s = self.s
         s.sync('put')
         k = classify(res, s.payload)
+        if s.party() == 'D' and not s.t_dead:
+            s.reported_while_alive = True
         s.results.append((k, res))
         s.record(s.party(), 'put', k)
 
@@ -312,7 +354,7 @@ def run_race(case):
     """one run of the real _dispatch under the schedule of `case`"""
     import radical.pilot.raptor.worker_default as wd
     payload, timed, sched = case['payload'], case['timed'], case['sched']
-    s = StepSched(payload, timed)
+    s = StepSched(payload, timed, case.get('sig', 'now'))
     cwd = os.getcwd()
 
     def dispatcher(task):
@@ -362,26 +404,21 @@ def run_race(case):
         for c in sched:
             s.choose(c)
         s.complete()
-        # release whatever is still parked (deadlocked runs of a broken protocol)
+        # the run is over (or stuck for good): unwind whatever is still parked
         with s.cv:
             stuck = sorted(p for p in ('D', 'T') if p in s.pending)
-            s.t_killed = True
+            fin_d = 'D' in s.finished
+            finished = fin_d and s.t_dead
+            s.t_alive_end = not s.t_dead
+            s.abort = True
             s.cv.notify_all()
-        fin_d = 'D' in s.finished
-        if not fin_d:
-            # unblock a dispatcher that waits forever: let its next sync raise
-            with s.cv:
-                s.turn = 'D'
-                s.lock_owner = None
-                s.t_dead = True
-                s.cv.notify_all()
-        d.join(2)
+        d.join(5)
     os.chdir(cwd)
     setproctitle.setproctitle(title)
     os.environ.pop('CUDA_VISIBLE_DEVICES', None)
     if err:
         raise HarnessError('dispatcher raised: %s' % err[0])
-    return s, fin_d and s.t_dead, stuck
+    return s, finished, stuck
 
 
 def run_watcher(results, pid):
@@ -414,13 +451,33 @@ def run_watcher(results, pid):
         alive = True
     except BaseException as e:                # noqa
         why = type(e).__name__
+    cores_after = list(w._resources['cores'])
+    # a third request arrives: it is placed on whatever the raced request gave back
+    third = None
+    if alive and w._resources['cores'][0] == 0:
+        started = []
+
+        class FakeProcess:
+            def __init__(self, target=None, args=(), **kw):
+                self.task, self.pid = args[0], 434343
+
+            def start(self):
+                started.append(list(self.task['slots'][0]['cores']))
+        w._n_cores, w._n_gpus, w._task_env = 2, 0, {}
+        mp_shim = mock.MagicMock()
+        mp_shim.Process = FakeProcess
+        with mock.patch.object(wd, 'mp', mp_shim):
+            w._request_cb([{'uid': 'req.000003', 'cores': 1, 'gpus': 0,
+                            'description': {'mode': 'task.function', 'timeout': 0}}])
+        third = started[0] if started else None
     return {'returned': [int(u.rsplit('.', 1)[1]) for u in returned], 'alive': alive, 'why': why,
-            'cores': list(w._resources['cores']), 'pool': len(w._pool)}
+            'cores': cores_after, 'pool': len(w._pool), 'third': third}
 
 
 def impl_race(case):
     s, finished, stuck = run_race(case)
-    obs = {'trace': s.trace, 'queue': [k for k, _r in s.results], 'finished': finished, 'stuck': stuck}
+    obs = {'trace': s.trace, 'queue': [k for k, _r in s.results], 'finished': finished, 'stuck': stuck,
+           'reported_while_alive': s.reported_while_alive, 't_alive_end': s.t_alive_end}
     obs.update(run_watcher(s.results, os.getpid()))
     return obs
 
@@ -461,18 +518,36 @@ def gen_cases(rng, tier):
                 continue
             for sc in structured(payload, timed, quick):
                 yield {'kind': 'race', 'payload': payload, 'timed': timed, 'sched': sc}
+    # the task process's reaction to SIGTERM: dies later ('delay': K = it dies now) or never;
+    # the task process makes j steps, the timeout expires, the dispatcher gets as far as (or
+    # past) terminate(), then grace expiry / delayed death / further steps in every order
+    tails = ['', 'K', 'X', 'XK', 'KX', 'TK', 'TX', 'TXDDDDDD', 'XDDKDDD', 'KDDDDD', 'XDTDKD', 'TKXDD']
+    for sig in ('delay', 'never'):
+        for payload in PAYLOADS:
+            for j in (0, 1, 2):
+                for k in (4, 5, 6, 7):
+                    for tail in (tails if not quick else tails[::2] if (j + k) % 2 else tails[1::2]):
+                        yield {'kind': 'race', 'payload': payload, 'timed': True, 'sig': sig,
+                               'sched': 'D' + 'T' * j + 'X' + 'D' * k + tail}
     for _ in range(150 if quick else 3000):
         payload = rng.choice(['return', 'return', 'raise', 'die', 'hang'])
         timed = True if payload == 'hang' else rng.random() < 0.8
-        n = rng.randint(0, 16)
-        sc = 'D' + ''.join(rng.choice('DDTTX' if timed else 'DT') for _i in range(n))
-        yield {'kind': 'race', 'payload': payload, 'timed': timed, 'sched': sc}
+        sig = rng.choice(['now', 'now', 'delay', 'never'])
+        n = rng.randint(0, 18)
+        sc = 'D' + ''.join(rng.choice('DDDTTXK' if timed else 'DT') for _i in range(n))
+        yield {'kind': 'race', 'payload': payload, 'timed': timed, 'sig': sig, 'sched': sc}
     if not quick:
         import itertools
         for payload in ('return', 'die'):
             for n in range(0, 9):
                 for seq in itertools.product('DTX', repeat=n):
                     yield {'kind': 'race', 'payload': payload, 'timed': True, 'sched': 'D' + ''.join(seq)}
+        for payload in ('return', 'hang'):
+            for sig in ('delay', 'never'):
+                for n in range(0, 7):
+                    for seq in itertools.product('DTXK', repeat=n):
+                        yield {'kind': 'race', 'payload': payload, 'timed': True, 'sig': sig,
+                               'sched': 'DXDDDD' + ''.join(seq)}
 
 
 # ------------------------------------------------------------------------------
@@ -491,6 +566,12 @@ def rop_lit(e):
     op = e[1]
     if op == 'expire':
         return '(PD, RoExpire)'
+    if op == 'expire2':
+        return '(PD, RoExpire2)'
+    if op == 'die':
+        return '(PT, RoDie)'
+    if op == 'kill':
+        return '(PD, RoKill)'
     simple = dict(start='RoStart', join='RoJoin', acquire='RoAcquire', terminate='RoTerminate', set='RoSet',
                   release='RoRelease', fn='RoFn', exit='RoExit')
     if op in simple:
@@ -505,22 +586,37 @@ def rop_lit(e):
 
 
 def sched_lit(sc):
-    return '[' + '; '.join({'D': 'CD', 'T': 'CT', 'X': 'CX'}[c] for c in sc) + ']'
+    return '[' + '; '.join({'D': 'CD', 'T': 'CT', 'X': 'CX', 'K': 'CK'}[c] for c in sc) + ']'
+
+
+SIG = dict(now='SigNow', delay='SigDelay', never='SigNever')
+
+
+def sig_lit(case):
+    return SIG[case.get('sig', 'now')]
 
 
 def coq_row(case, obs):
-    return '(c20_race_row %s %s %s %s %s %s %s %s %s)' % (
-        PAY[case['payload']], b(case['timed']), sched_lit(case['sched']),
+    return '(c20_race_row %s %s %s %s %s %s %s %s %s %s %s)' % (
+        PAY[case['payload']], b(case['timed']), sig_lit(case), sched_lit(case['sched']),
         '[' + '; '.join(rop_lit(e) for e in obs['trace']) + ']',
         '[' + '; '.join(RK.get(k, 'ROther') for k in obs['queue']) + ']',
         b(obs['finished']),
         '[' + '; '.join('(%d)%%Z' % u for u in obs['returned']) + ']',
         b(obs['alive']),
-        '[' + '; '.join(b(x) for x in obs['cores']) + ']')
+        '[' + '; '.join(b(x) for x in obs['cores']) + ']',
+        b(obs['reported_while_alive']))
+
+
+def extra_row(obs):
+    third = obs.get('third')
+    return '(c20_race_extra %s %s)' % (b(obs['reported_while_alive']), 'None' if third is None else
+                                       '(Some [%s])' % '; '.join('(%d)%%Z' % c for c in third))
 
 
 def model_show(case):
-    return 'race_show %s %s %s' % (PAY[case['payload']], b(case['timed']), sched_lit(case['sched']))
+    return 'race_show %s %s %s %s' % (PAY[case['payload']], b(case['timed']), sig_lit(case),
+                                      sched_lit(case['sched']))
 
 
 def shrink(case):
